@@ -33,6 +33,9 @@ type Global struct {
 	contracts *ContractSet
 	loadSecs  float64
 	findings  map[string]*Finding // known findings of the property being checked, by obligation name
+
+	constGlobals    map[*ssa.Global]*ssa.Const
+	constGlobalUsed bool
 }
 
 func parseTypeExpr(s string) (ast.Expr, error) { return parser.ParseExpr(s) }
@@ -199,6 +202,9 @@ func main() {
 					}
 				}
 				continue
+			}
+			if len(vc.Unknown) > 0 || len(vc.Abstract) > 0 {
+				fmt.Printf("; %s: unknown callees %v; abstractions %v\n", shortFuncName(fn), vc.Unknown, vc.Abstract)
 			}
 			rs := g.solveAll([]*FnVC{vc}, 10, false)
 			for _, r := range rs {
